@@ -470,6 +470,12 @@ def _envsf():
         'dont_write_bytecode': lambda ev: ev.st.ghost['env.dont_write_bytecode'],
         'cachepath': lambda ev, p: VStr(E.cachepath(p.z)),
         'isfunction': lambda ev, v: VBool(T.Val.is_VF(to_val(v))),
+        # the two code strings a cookie was computed from (inverse of cookie_of: sha1 collision-free, self-delimiting codes)
+        'cookie_pack_code': lambda ev, k: VStr(z3.Function('unutf8', T.Bytes, T.S)(z3.Function('hlast', E.HAcc, T.Bytes)(
+            z3.Function('hprev', E.HAcc, E.HAcc)(z3.Function('unsha', T.S, E.HAcc)(k.z))))),
+        'cookie_unpack_code': lambda ev, k: VStr(z3.Function('unutf8', T.Bytes, T.S)(z3.Function('hlast', E.HAcc, T.Bytes)(
+            z3.Function('unsha', T.S, E.HAcc)(k.z)))),
+        'strval': lambda ev, v: VStr(T.Val.sval(to_val(v))),
         'is_tmp': lambda ev, p: VBool(E.is_tmp_path(p.z)),
     }
     return d
